@@ -122,6 +122,15 @@ def gen_labware(rng, kind, name, regime, size_class, idx, opts):
             spec["names"] = [
                 (rng.choice(COMPONENTS) if (ini[c] > 0 and rng.random() < 0.7) else None) for c in range(cols)
             ]
+    # sometimes the user hands the initial volumes over as float32 / integer arrays (only when every value is
+    # exactly representable there, so the configuration itself is unchanged)
+    import struct
+    flat = [v for row in ini for v in (row if isinstance(row, list) else [row])]
+    if rng.random() < 0.12:
+        if all(float(v).is_integer() for v in flat) and rng.random() < 0.5:
+            spec["initial_dtype"] = "int64"
+        elif all(struct.unpack("f", struct.pack("f", v))[0] == v for v in flat):
+            spec["initial_dtype"] = "float32"
     return spec
 
 
@@ -179,6 +188,9 @@ def build_labware(rt, spec, shared=None, index=None):
         arr = shared[spec["replica_of"]]
     else:
         arr = np.array(dec(spec["initial"]), dtype=float)
+        dt = spec.get("initial_dtype")
+        if dt in ("float32", "int64"):
+            arr = arr.astype(np.float32 if dt == "float32" else np.int64)
     if index is not None:
         shared[index] = arr
     if spec["kind"] == "plate":
